@@ -43,6 +43,7 @@ def run(tier):
     clause_d(P, rep)
     clause_e(P, rep, rows1)
     clause_g(P, rep)
+    clause_g_segments(P, rep)
     # h. an `.org` (or segment switch) written inside a macro body keeps its effect when the expansion is spliced into the output
     import rules_C09
     rules_C09.splice_headers(P, rep, "C02.h")
@@ -567,3 +568,57 @@ def clause_g(P, rep):
                ".%s can succeed without any effect (%d of %d success paths): the operand is silently dropped and everything after it is placed as if the "
                "directive were not there — operand shapes: %s" % (d.lower(), len(silent), len(oks), sorted(shapes)[:2]),
                detail={"silent paths": len(silent), "shapes": sorted(shapes)})
+
+
+def clause_g_segments(P, rep):
+    """(P) what the segment directives and `.org` do to the segment list, exactly: `.cseg/.dseg/.eseg` open a fresh segment of their
+    type when the current one holds items and otherwise only re-type the (empty) current one — its start address, which an `.org` may just
+    have set, is left alone; `.org` opens a fresh segment of the current type when the current one holds items and then stores the value."""
+    import rules_C08
+    fn = "directive::Directive::parse"
+    dv = rules_C08.dvariants(P)
+    inv = {n: d for d, n in dv.items()}
+    want_t = {"CSeg": "Code", "DSeg": "Data", "ESeg": "Eeprom"}
+    M = absint.Machine(P, max_depth=4, opaque={"expr::Expr::run", "parser::parse_file_internal"})
+    paths = M.explore(fn, M.arg_unknowns(fn), doms={S("self*#d", 64, True): sx.dom_set([inv[d] for d in want_t])})
+    if M.capped or M.unsupported:
+        rep.unprovable("C02.g|segment-switch|explore", "exploration incomplete: %s" % M.unsupported[:2])
+        return
+    fields = [f["name"] for f in P.lib.adts["parser::Segment"]["variants"][0]["fields"]]
+    ft = fields.index("t")
+    per = {}
+    for p in paths:
+        # the directive of the path: its type is what gets written / pushed
+        d = L.dom1(p.state, "self*#d")
+        eff = [(e[0], e[1], e[2]) for e in p.events if e[0] in ('store', 'push')]
+        empty = None
+        for e, t in p.conds:
+            if sx.show(e).endswith(".items#len == 0)"):
+                empty = t
+        per.setdefault(dv.get(d) if d is not None else None, []).append((p.exit, empty, eff))
+    # paths whose directive is not pinned by a condition belong to the `_ => Code` default of the inner match: attribute by effect
+    for dname, tname in want_t.items():
+        rows = per.get(dname, []) + [r for r in per.get(None, [])]
+        okd = True
+        why = ""
+        seen_nonempty = seen_empty = False
+        for exit_, empty, eff in rows:
+            if exit_ != "Ok":
+                okd, why = False, "a segment directive can fail"
+                continue
+            mine = [x for x in eff if ("SegmentType::%s" % tname) in str(x[2])]
+            if not mine:
+                continue
+            if empty is False:
+                seen_nonempty = True
+                if not (len(eff) == 1 and eff[0][0] == 'push' and re.search(r"Segment::Segment\(vec, SegmentType::%s, 0\)" % tname, str(eff[0][2]))):
+                    okd, why = False, "with items in the current segment the directive does not open exactly one fresh %s segment (effects %s)" % (tname, [str(x[2])[:60] for x in eff])
+            elif empty is True:
+                seen_empty = True
+                if not (len(eff) == 1 and eff[0][0] == 'store' and eff[0][1].endswith(".%d" % ft) and str(eff[0][2]) == "SegmentType::%s" % tname):
+                    okd, why = False, ("on a still empty current segment the directive does more than set its type (%s): a start address that `.org` has just stored there is lost" % [("%s %s" % (x[0], str(x[1])[-24:])) for x in eff])
+        if okd and not (seen_empty and seen_nonempty):
+            okd, why = False, "the two cases (current segment empty / not empty) were not both found for .%s" % dname.lower()
+        rep.ob("C02.g|segment-switch|%s" % dname.lower(), okd,
+               ".%s opens a fresh %s segment after items, and only re-types a still empty segment (its start address stays)" % (dname.lower(), tname.lower()) if okd else
+               ".%s: %s" % (dname.lower(), why))
